@@ -40,6 +40,7 @@ func runC16(c *Ctx) {
 	c.rule("Y7", "Fetch/Store report the failure of the work they did: no deferred literal overwrites the error result unconditionally", 4)
 
 	c.c16Typestate()
+	c.c16HeartBeatOutlivesTheAcquire()
 	c.c16Immutable()
 	c.c16Transfer()
 	c.c16ErrorKept()
@@ -365,9 +366,20 @@ func lockEventOf(in ssa.Instruction) *lockEvent {
 	} else if f := staticCallee(&cl.Call); f != nil && f.Signature.Recv() != nil && len(cl.Call.Args) > 0 {
 		recv, name = cl.Call.Args[0], f.Name()
 	} else {
+		if g := staticCallee(&cl.Call); g != nil {
+			if pi := acquireWrapperParam(g); pi >= 0 && pi < len(cl.Call.Args) {
+				return &lockEvent{in: in, kind: "acquire", root: lockRoot(cl.Call.Args[pi]), errVals: errResultsOf(cl)}
+			}
+		}
 		return nil
 	}
 	if !isILockRecv(recv) {
+		// a wrapper of the package that acquires the lock it is handed and returns with it held stands for the acquire
+		if g := staticCallee(&cl.Call); g != nil {
+			if pi := acquireWrapperParam(g); pi >= 0 && pi < len(cl.Call.Args) {
+				return &lockEvent{in: in, kind: "acquire", root: lockRoot(cl.Call.Args[pi]), errVals: errResultsOf(cl)}
+			}
+		}
 		return nil
 	}
 	switch {
@@ -377,6 +389,52 @@ func lockEventOf(in ssa.Instruction) *lockEvent {
 		return &lockEvent{in: in, kind: "release", root: lockRoot(recv)}
 	}
 	return nil
+}
+
+// acquireWrapperParam: g takes an ILock parameter, acquires it (Lock / TryLock / LockWithTimeout), never releases it and
+// returns an error: on success it returns with the lock held. The index of that parameter, or -1.
+var acquireWrapperMemo = map[*ssa.Function]int{}
+
+func acquireWrapperParam(g *ssa.Function) int {
+	if v, ok := acquireWrapperMemo[g]; ok {
+		return v
+	}
+	acquireWrapperMemo[g] = -1
+	if g.Blocks == nil || g.Pkg == nil || !strings.HasPrefix(g.Pkg.Pkg.Path(), modPath) {
+		return -1
+	}
+	res := g.Signature.Results()
+	if res.Len() == 0 || !isErrorType(res.At(res.Len()-1).Type()) {
+		return -1
+	}
+	if g.Signature.Recv() != nil && strings.Contains(g.Signature.Recv().Type().String(), "RemoteLockFile") {
+		return -1
+	}
+	for i, p := range g.Params {
+		if !isILockRecv(p) {
+			continue
+		}
+		acq, rel := false, false
+		withAnon(g, func(h *ssa.Function) {
+			allInstrs(h, func(in ssa.Instruction) {
+				if d, ok := in.(*ssa.Defer); ok && deferredRelease(d, ssa.Value(p)) {
+					rel = true
+				}
+				if ev := lockEventOf(in); ev != nil && ev.root == ssa.Value(p) {
+					if ev.kind == "acquire" {
+						acq = true
+					} else {
+						rel = true
+					}
+				}
+			})
+		})
+		if acq && !rel {
+			acquireWrapperMemo[g] = i
+			return i
+		}
+	}
+	return -1
 }
 
 // deferredReleases: number of Unlock calls on root that a Defer instruction will run.
@@ -639,6 +697,9 @@ func (c *Ctx) c16Typestate() {
 			// the lock's own implementation is outside the rule
 			if rel == "filesystem" && f.Signature.Recv() != nil && strings.Contains(f.Signature.Recv().Type().String(), "RemoteLockFile") {
 				continue
+			}
+			if acquireWrapperParam(f) >= 0 {
+				continue // returns with the lock held by design: its callers are the clients (Y19 looks at what it does with the context)
 			}
 			roots := map[ssa.Value]bool{}
 			var order []ssa.Value
@@ -1525,4 +1586,79 @@ func (c *Ctx) c16SideFileRefreshed() {
 	}
 	c.check(good, "Y12", key, c.ipos(write), "a failed write of the side file is followed by its removal or reported",
 		"the outcome of writing the .hash side file is ignored: when the write fails after the package was replaced, the previous side file (well-formed, describing the previous package) stays — Store reports success and every later Fetch fails with a hash mismatch")
+}
+
+// c16HeartBeatOutlivesTheAcquire (Y19): the lock's heartbeat runs for as long as the context handed to Lock / TryLock /
+// LockWithTimeout lives (C01/R9: it stops when that context ends). A client of the lock that derives a context of its own
+// for the acquire and cancels it when it returns must give the lock back before it returns: returning with the lock held
+// and the context cancelled leaves a lock that is held and silent — after two periods every other client sees it stale,
+// CleanEntry releases it and a second Store runs in the middle of the first.
+func (c *Ctx) c16HeartBeatOutlivesTheAcquire() {
+	c.rule("Y19", "a function of package sharedcache that acquires an entry lock under a context it derived itself (context.With*) and cancels in that function also releases the lock in that function: the heartbeat of a lock that stays held is never stopped by its own client", 1)
+	n := 0
+	for _, f := range c.srcFuncs(scPkg) {
+		if f.Parent() != nil || f.Blocks == nil {
+			continue
+		}
+		withAnon(f, func(h *ssa.Function) {
+			allInstrs(h, func(in ssa.Instruction) {
+				cl, ok := in.(*ssa.Call)
+				if !ok || !cl.Call.IsInvoke() || !lockAcquire[cl.Call.Method.Name()] || !isILockRecv(cl.Call.Value) || len(cl.Call.Args) == 0 {
+					return
+				}
+				n++
+				c.FuncsSeen[fname(f)] = true
+				key := fname(f) + "/acquire-context:" + cl.Call.Method.Name()
+				root := lockRoot(cl.Call.Value)
+				cancelledHere := ""
+				for _, l := range sources(cl.Call.Args[0], deriveOpts{}) {
+					ex, ok := l.(*ssa.Extract)
+					if !ok || ex.Index != 0 {
+						continue
+					}
+					w, ok := ex.Tuple.(*ssa.Call)
+					if !ok || !strings.HasPrefix(calleeFull(&w.Call), "context.With") {
+						continue
+					}
+					// is its cancel function called or deferred in this function?
+					for _, r := range *w.Referrers() {
+						ce, ok := r.(*ssa.Extract)
+						if !ok || ce.Index != 1 {
+							continue
+						}
+						for _, u := range *ce.Referrers() {
+							switch x := u.(type) {
+							case *ssa.Defer:
+								if x.Call.Value == ssa.Value(ce) {
+									cancelledHere = c.ipos(x)
+								}
+							case *ssa.Call:
+								if x.Call.Value == ssa.Value(ce) {
+									cancelledHere = c.ipos(x)
+								}
+							}
+						}
+					}
+				}
+				if cancelledHere == "" {
+					c.ok("Y19", key, c.ipos(cl), "the lock is acquired under the caller's context (or one this function does not cancel)")
+					return
+				}
+				released := false
+				withAnon(f, func(g *ssa.Function) {
+					allInstrs(g, func(j ssa.Instruction) {
+						if d, ok := j.(*ssa.Defer); ok && deferredRelease(d, root) {
+							released = true
+						}
+						if ev := lockEventOf(j); ev != nil && ev.kind == "release" && ev.root == root {
+							released = true
+						}
+					})
+				})
+				c.check(released, "Y19", key, c.ipos(cl), "the function that cancels the context of the acquire also releases the lock",
+					"the lock is acquired under a context this function derives and cancels ("+cancelledHere+") without releasing the lock: the heartbeat lives on that context (it is what tells the other clients that the holder is alive), so the lock its caller goes on holding falls silent — two heartbeat periods later CleanEntry of another client finds it stale and releases it, a second Store runs in the middle of the first, and the Store that reported success has its package removed by the failure path of the other")
+			})
+		})
+	}
+	_ = n
 }
